@@ -195,5 +195,36 @@ func (ld *Loader) expandSweeps(sp *Specs) {
 			}
 			ct.SweepProps = append(ct.SweepProps, sw.Prop)
 		}
+		for _, nf := range sp.NoCallFiles {
+			if !strings.HasSuffix(file, "/"+nf.File) {
+				continue
+			}
+			skip := false
+			for _, ex := range nf.Except {
+				if strings.HasSuffix(k, ex) {
+					skip = true
+				}
+			}
+			if skip {
+				continue
+			}
+			ct := sp.Contracts[k]
+			if ct == nil {
+				ct = &Contract{Key: k, Pkg: fn.Pkg.Pkg.Path(), Loops: map[int]*LoopSpec{}, Where: nf.File, Thin: true}
+				sp.Contracts[k] = ct
+			}
+			if ct.External {
+				continue
+			}
+			dup := false
+			for _, nc := range ct.NoCalls {
+				if nc.Src == nf.Callee && hasProp(nc.Props, nf.Prop) {
+					dup = true
+				}
+			}
+			if !dup {
+				ct.NoCalls = append(ct.NoCalls, &Clause{Label: nf.Label, Src: nf.Callee, Where: nf.Where, Props: []string{nf.Prop}})
+			}
+		}
 	}
 }
